@@ -257,7 +257,8 @@ ma, ca, mb, cb = sys.argv[2:6]
 from richchk.transcoder.richchk.transcoders.helpers.richchk_enum_transcoder import RichChkEnumTranscoder as X
 A = getattr(importlib.import_module(ma), ca)
 first = next(iter(A))
-assert X.decode_enum(first.id, A) is first          # the first lookup of the process
+if X.decode_enum(first.id, A) is not first:          # the first lookup of the process
+    print(json.dumps(["first lookup wrong"])); sys.exit(0)
 B = getattr(importlib.import_module(mb), cb)         # an enum that is only loaded afterwards
 bad = []
 for m in B:
@@ -270,8 +271,9 @@ print(json.dumps(bad[:5]))
 """
 
 
-def late_enum_cases(es):
-    """every enum used for the first time AFTER another enum's first lookup, in a fresh interpreter each"""
+def late_enum_cases(es, optimised=False):
+    """every enum used for the first time AFTER another enum's first lookup, in a fresh interpreter each;
+    optimised = the interpreter runs with -O (assert statements are not executed)"""
     import subprocess
     from concurrent.futures import ThreadPoolExecutor
     items = sorted((E.__module__, E.__name__) for E, _ in es.values())
@@ -279,7 +281,7 @@ def late_enum_cases(es):
 
     def one(j):
         (ma, ca), (mb, cb) = j
-        p = subprocess.run(["/venv/bin/python", "-c", LATE_ENUM, str(vlib.SRC), ma, ca, mb, cb], stdout=subprocess.PIPE,
+        p = subprocess.run(["/venv/bin/python"] + (["-O"] if optimised else []) + ["-c", LATE_ENUM, str(vlib.SRC), ma, ca, mb, cb], stdout=subprocess.PIPE,
                            stderr=subprocess.PIPE, text=True, timeout=120, env={"PATH": "/usr/bin:/bin", "PYTHONHASHSEED": "0"})
         try:
             return j, json.loads(p.stdout.strip().splitlines()[-1])
@@ -338,6 +340,13 @@ def run(ck: vlib.Check):
         if bad:
             ck.violation(f"enum {cb}, first used after {first[1]} had been looked up, is not exact: members {bad}",
                          {"kind": "late-enum", "first": list(first), "enum": [mb, cb], "members": bad}, True)
+    # the same under an optimising interpreter (python -O): a codec must not depend on assert statements being executed
+    for (first, (mb, cb)), bad in late_enum_cases(es, optimised=True):
+        ck.evaluations += 1
+        ck.note_case(f"late-enum-O:{first[1]}->{cb}")
+        if bad:
+            ck.violation(f"under python -O, enum {cb} (first used after {first[1]}) is not exact: members {bad}",
+                         {"kind": "late-enum", "optimised": True, "first": list(first), "enum": [mb, cb], "members": bad}, True)
     hv = hp_values(ck.rng, tier)
     for raw in hv:
         bad = hp_oracle_case(raw)
